@@ -87,6 +87,22 @@ CHECKS["C20"] = (
     "not decided (strict vs non-strict is outside the statement).",
     "bounded-exhaustive input enumeration vs analytic reference model")
 
+CHECKS["C04"] = (
+    "4/C04",
+    "Exhaustive product scatterer x theory (Mie, layered, Mie superposition, "
+    "Multisphere, T-matrix sphere/spheroid/cylinder, MieLens, "
+    "AberratedMieLens, Lens) x length scale (powers of two and decimal "
+    "factors spanning 2^-13..1e9) x detector kind x quantity (hologram, "
+    "field, intensity, scattering matrix, cross sections) plus the medium "
+    "renormalisation for three medium indices.  Power-of-two rescaling must "
+    "reproduce every bit, which holds for any order of floating-point "
+    "operations, so the oracle needs no tolerance and survives "
+    "refactoring; decimal factors 1e-9.",
+    "Trusted: IEEE-754 exactness of power-of-two scaling (no under/overflow "
+    "in the explored range).  Alphabet values only.",
+    "bounded-exhaustive input/configuration enumeration with a metamorphic "
+    "(self-referential) oracle")
+
 NOT_YET = {}
 
 
